@@ -138,6 +138,39 @@ func cmdCheck(args []string) int {
 	}
 	p, err := loadProgram(LoadConfig{Repo: *repo, Verif: *verif, Scratch: scratch, Patterns: pc.Patterns})
 	if err != nil {
+		// Type errors that lie ONLY in the generated ghost files / overlaid lemma files mean that the tree
+		// itself compiles but the contracts no longer fit it (a field or parameter changed its type, a
+		// function its signature): the contracts are unbound — a violation report, not an infrastructure
+		// failure.  Anything else (the tree does not type-check) stays exit 2.
+		msg := err.Error()
+		if strings.Contains(msg, "type errors in snapshot") {
+			onlyGhost, n := true, 0
+			for _, l := range strings.Split(msg, "\n") {
+				l = strings.TrimSpace(l)
+				if l == "" || strings.HasPrefix(l, "type errors in snapshot") {
+					continue
+				}
+				n++
+				if !strings.Contains(l, "zz_verif_") {
+					onlyGhost = false
+				}
+			}
+			if onlyGhost && n > 0 {
+				dir := filepath.Join(*verif, "replays")
+				if *replayDirFlag != "" {
+					dir = *replayDirFlag
+				}
+				os.MkdirAll(dir, 0o755)
+				name := *prop + "#X:contracts-unbound"
+				rp := filepath.Join(dir, *prop+"_Xcontractsunbound.json")
+				js, _ := json.MarshalIndent(map[string]interface{}{"property": *prop, "obligation": name, "confirmed": false,
+					"message": "the tree compiles, but the contracts and lemmas of this property no longer type-check against it: every obligation is unbound", "solver_output": msg}, "", " ")
+				os.WriteFile(rp, js, 0o644)
+				fmt.Printf("FAILED-OBLIGATION: %s\n", name)
+				fmt.Printf("VIOLATION property=%s replay=%s no-failing-input-found\n", *prop, rp)
+				return 1
+			}
+		}
 		fmt.Fprintln(os.Stderr, "govc: load failed (infrastructure, not a verdict):", err)
 		return 2
 	}
